@@ -479,8 +479,12 @@ func (p *Parser) PrefixExp(t *token.Token) (ast.ExpNode, *token.Token) {
 	switch t.Type {
 	case token.SgOpenBkt:
 		exp, t = p.Exp(p.Scan())
-		if f, ok := exp.(ast.FunctionCall); ok {
-			exp = f.InBrackets()
+		// An expression in brackets is adjusted to one value
+		switch e := exp.(type) {
+		case ast.FunctionCall:
+			exp = e.InBrackets()
+		case ast.Etc:
+			exp = e.InBrackets()
 		}
 		expectType(t, token.SgCloseBkt, "')'")
 	case token.IDENT:
